@@ -8,6 +8,8 @@ import (
 	"fmt"
 	"strings"
 	"sync"
+	"sync/atomic"
+	"time"
 
 	"verif/harness/dsx"
 	"verif/harness/hx"
@@ -306,13 +308,58 @@ func RunMany(c *hx.Ctx, prop string, n, par int, c10 bool) {
 	}
 	jobs := make(chan job)
 	var wg sync.WaitGroup
+	var ran, dropped int64 // c10t9: histories executed / dropped as timing skew after six runs
+	// c10t9: timer-lateness monitor. dsx drives a timer label (PT / GT / PL) by sleeping to the deadline + 8 ms and settling
+	// for 26 ms: it assumes MOSN's timer callback (time.AfterFunc -> its own goroutine) has run by then. On a loaded machine
+	// the callback can be later than that, the label then shows no effect and the timeout lands inside a later label (seen
+	// as `D S` lines at load average 30-36). The callback's lateness cannot be observed from outside, but timers of one
+	// process are late together: a goroutine sleeping 2 ms at a time records when its own wake-up was more than lateTimer
+	// late; a history with a timer label during which that happened is run again (counted skew.late-timer).
+	const lateTimer = 20 * time.Millisecond
+	var lateMu sync.Mutex
+	var lateAt []time.Time
+	stopMon := make(chan struct{})
+	go func() {
+		for {
+			select {
+			case <-stopMon:
+				return
+			default:
+			}
+			t := time.Now()
+			time.Sleep(2 * time.Millisecond)
+			if time.Since(t)-2*time.Millisecond > lateTimer {
+				lateMu.Lock()
+				lateAt = append(lateAt, time.Now())
+				if len(lateAt) > 4096 {
+					lateAt = lateAt[2048:]
+				}
+				lateMu.Unlock()
+			}
+		}
+	}()
+	defer close(stopMon)
+	lateDuring := func(from time.Time) bool {
+		lateMu.Lock()
+		defer lateMu.Unlock()
+		for i := len(lateAt) - 1; i >= 0; i-- {
+			if lateAt[i].After(from) {
+				return true
+			}
+			break
+		}
+		return false
+	}
 	for w := 0; w < par; w++ {
 		wg.Add(1)
 		go func() {
 			defer wg.Done()
 			for j := range jobs {
 				var res dsx.Result
-				for try := 0; try < 3; try++ {
+				// c10t9: up to six runs of a history whose timing grid was disturbed (was three: at load average 30-36 on 16 cores
+				// a single run of C03's timer-heavy histories is disturbed with probability 0.4-0.45, i.e. 6-9 % were dropped)
+				for try := 0; try < 6; try++ {
+					t0 := time.Now()
 					if strings.HasPrefix(j.kind, "script:") {
 						res = dsx.Run(j.cfg, scriptChooser(j.script), j.labels)
 					} else if j.kind == "partial" {
@@ -324,13 +371,19 @@ func RunMany(c *hx.Ctx, prop string, n, par int, c10 bool) {
 					} else {
 						res = dsx.Run(j.cfg, persistChooser(j.kind, j.arm), j.labels)
 					}
+					if !res.Skewed && lateDuring(t0) && (strings.Contains(res.Sched, "PT") || strings.Contains(res.Sched, "GT") || strings.Contains(res.Sched, "PL")) {
+						res.Skewed = true
+						c.Count("skew.late-timer")
+					}
 					if !res.Skewed {
 						break
 					}
 					c.Count("skew.rerun")
 				}
+				atomic.AddInt64(&ran, 1)
 				if res.Skewed {
 					c.Count("skew.dropped")
+					atomic.AddInt64(&dropped, 1)
 					continue
 				}
 				c.Emit(prop, "hist "+j.cfg.Tokens()+" "+res.Sched, res.Out)
@@ -527,7 +580,15 @@ func RunMany(c *hx.Ctx, prop string, n, par int, c10 bool) {
 	}
 	close(jobs)
 	wg.Wait()
+	// c10t9: dropping is bounded — a run that had to discard more than histSkewShare % of its histories (each after three
+	// attempts) says too little about the code: it ends as "environment too slow", never as a verdict
+	if d, r := atomic.LoadInt64(&dropped), atomic.LoadInt64(&ran); d > 3 && d*100 > histSkewShare*r {
+		c.TooSlow(fmt.Sprintf("%s hist: %d of %d histories dropped as timing skew (> %d %%)", prop, d, r, histSkewShare))
+	}
 }
+
+// histSkewShare: percent of the histories of one RunMany that may be dropped as skew.
+const histSkewShare = 15
 
 // ModelCheck emits `mc` cases: the driver explores EVERY schedule of the model for the configuration up to the state
 // limit and evaluates the executable invariant (all clauses of Inv), "no silent outcome", "the global timer completes a
